@@ -35,6 +35,10 @@ claim("C08",
   "Static analysis of necessary conditions of totality, each holding for all source texts at once: end-of-input constant propagation through every lexer loop that reads input (no feasible cycle once read() returns 0), an inventory of every explicit panic reachable from Compile discharged by enum/type-switch exhaustiveness or a frozen trusted table, nil-success returns of parse functions traced to their call sites (a nil node with a nil error must be tested before conversion/dereference), dominance of `i < len(s)` over every index into the regex pattern string and the filtered expression-token slice with call-site obligations for entry-parameter indexes, TokenType.PP exhaustive, error constructors never get nil tokens, generator/checker type switches end in an error.",
   "Axioms A1-A3 (token list ends in EOF, skipping never passes EOF, bufio EOF is sticky); does not bound stack depth or the size of unrolled loops; the token parser's sentinel discipline is only covered through R3.",
   "sentinel constant propagation on the SSA CFG + panic inventory over the call graph + guard dominance + nil-flow analysis", "DESIGN.md section 5 C08")
+claim("C15",
+  "Typestate analysis over SSA with function summaries (greatest fixpoint over the parser's call graph): each of the ~174 token-kind decisions of parser.go must look at an index that is a result of consumeIgnoreableTokens, the function's own parameter (obligation moved to every call site) or an index whose callee summary is `skipped`; sibling comparison of the kinds dropped by the expression-token filter and the kinds skipped by the skipper; keyword switch tagged by strings.ToLower of the whole lexeme with lower-case spellings. A raw decision is exactly a gap where a blank or comment changes the parse, for all programs at once.",
+  "Three frozen exceptions need a path-sensitive summary (index returned by parse_process_statements). Does not decide the lexer's comment state machine nor AST equality.",
+  "interprocedural typestate (skipped/raw index) on SSA + sibling table comparison", "DESIGN.md section 5 C15")
 for pid in ["C01","C02","C03","C04","C05","C06","C07","C08","C09","C10","C11","C12","C13","C14","C15","C16","C17","C18","C19","C20"]:
     if pid not in CLAIMED:
         NA[pid] = "check under construction in this session (rules designed in DESIGN.md section 5, not yet implemented in the checker); not claimed until its rules run"
